@@ -5,6 +5,7 @@
 -/
 import RdfModel.Props.C04
 import RdfModel.Props.C04Facts
+import RdfModel.Props.C04Heap
 open RdfModel RdfModel.C04
 
 #print axioms RdfModel.C04.canon_refines_spec
@@ -23,6 +24,13 @@ open RdfModel RdfModel.C04
 #print axioms RdfModel.C04.facts_issuer
 #print axioms RdfModel.C04.facts_sorts
 #print axioms RdfModel.C04.Witness.wf
+#print axioms RdfModel.C04.heap_complete_0
+#print axioms RdfModel.C04.heap_complete_1
+#print axioms RdfModel.C04.heap_complete_2
+#print axioms RdfModel.C04.heap_complete_3
+#print axioms RdfModel.C04.heap_complete_4
+#print axioms RdfModel.C04.heap_complete_5
+#print axioms RdfModel.C04.heap_complete_6
 
 /-- The refinement theorem on the witness dataset, the regenerated tables, Go's default limits, the
     identity order and the untruncated-to-5000 Heap enumeration: all hypotheses are discharged. -/
